@@ -26,6 +26,65 @@ CONSTS = [
     ("frameMask", "FRAME_MASK"),
 ]
 
+# ---------------------------------------------------------------------------
+# inventory tie: every efun of lib/efuns/func_spec.c whose return type can carry a sized value (string, array,
+# mapping, buffer, mixed) is either decided by a constructor of NV/C04/Sizes.lean or excluded here with a reason.
+# An efun that is in neither table breaks the tie (the check fails until it is classified).
+
+EFUN_COVERED = {
+    "explode": "explodeArray", "implode": "implodeString", "replace_string": "replaceRun/replaceFinish",
+    "allocate": "allocateArray", "allocate_buffer": "allocateBuffer", "allocate_mapping": "allocateMapping",
+    "keys": "mapKeys", "values": "mapKeys", "repeat_string": "repeatString", "sprintf": "sprintfAdd/sprintfFinish (incl. %*s field widths: sprintf_pad)",
+    "copy": "sameSize", "sort_array": "sameSize", "map": "sameSize", "map_array": "sameSize", "map_mapping": "sameSize",
+    "lower_case": "sameSize", "upper_case": "sameSize", "capitalize": "sameSize",
+    "filter": "partOf", "filter_array": "partOf", "filter_mapping": "partOf", "unique_array": "partOf",
+    "unique_mapping": "partOf (at most one key per element, inserted through find_for_insert: mapInsert)",
+}
+_LIST = "listing of driver state: one element per object / frame / entry, clamped to MAX_ARRAY_SIZE or allocated through allocate_empty_array (errors above the limit)"
+_SMALL = "result of a fixed small size (a name, a date, a status word), or bounded by a buffer of the C code"
+_EXIST = "returns a value that exists already (no construction)"
+EFUN_EXCLUDED = {
+    **{e: _LIST for e in ("all_previous_objects", "call_stack", "all_inventory", "deep_inventory", "commands", "livings", "users",
+                          "get_dir", "call_out_info", "objects", "deep_inherit_list", "shallow_inherit_list", "inherit_list",
+                          "children", "function_profile", "named_livings", "functions", "variables", "heart_beats",
+                          "heart_beat_info", "localtime", "stat")},
+    **{e: _SMALL for e in ("file_name", "query_verb", "typeof", "crypt", "oldcrypt", "ctime", "function_exists", "query_host_name",
+                           "query_ip_name", "query_ip_number", "in_edit", "rusage", "cache_stats", "malloc_status", "mud_status",
+                           "dump_file_descriptors", "query_load_average", "origin", "program_info", "memory_summary",
+                           "socket_error", "socket_address", "dump_socket_status", "geteuid", "getuid")},
+    **{e: _EXIST for e in ("evaluate", "previous_object", "match_path", "get_config", "query_notify_fail", "fetch_variable",
+                           "debug_info", "member_array")},
+    "clear_bit": "bit strings: bounded by MaxBitFieldBits (own limit, not a C04 limit)",
+    "set_bit": "bit strings: bounded by MaxBitFieldBits (own limit, not a C04 limit)",
+    "read_buffer": "file / buffer input: bounded by MaxByteTransfer (own limit); file access is C15/C16",
+    "read_bytes": "file input: bounded by MaxByteTransfer (own limit); file access is C15/C16",
+    "read_file": "file input: bounded by MaxReadFileSize (own limit); file access is C15/C16",
+    "save_variable": "NOT ANALYSED here: the saved text of a value is as long as the value is large (C16 covers save/restore); not bounded by MaxStringLength by any test this check knows",
+    "restore_variable": "NOT ANALYSED here: rebuilds values from text (C16); mapping size is tested in restore_mapping, arrays go through allocate_empty_array",
+    "regexp": "NOT ANALYSED here: result is a subset of the input array (match_regexp allocates at most the input size)",
+    "reg_assoc": "NOT ANALYSED here: result arrays are allocated through allocate_empty_array (errors above the limit)",
+    "strwrap": "not implemented by the driver (returns its argument)",
+}
+SIZED_RETURN = ("string", "mixed", "mapping", "buffer")
+
+
+def efun_inventory(repo):
+    """efuns of func_spec.c that return a sized value: [(name, return type text)]"""
+    import re
+    text = open(os.path.join(repo, "lib/efuns/func_spec.c"), errors="replace").read()
+    text = re.sub(r"/\*.*?\*/", " ", text, flags=re.S)
+    text = "\n".join(l for l in text.splitlines() if not l.lstrip().startswith("#") and not l.lstrip().startswith("//"))
+    out = []
+    for stmt in text.split(";"):
+        m = re.match(r"\s*(?:unsigned\s+)?(\w+)\s*(\*?)\s*(\w+)(?:\s+\w+)?\s*\(", stmt.replace("\n", " "))
+        if not m:
+            continue
+        typ, star, name = m.group(1), m.group(2), m.group(3)
+        if star or typ in SIZED_RETURN:
+            out.append((name, typ + star))
+    return out
+
+
 BASE_CONF = "MaxCallDepth 200\nStackSize 2000\n"
 
 
@@ -40,7 +99,7 @@ class Node:
         k = self.kind
         if k in ("K", "S", "X", "E", "T"):
             return k
-        if k in ("W", "R"):
+        if k in ("W", "R", "N"):
             return "%s%d" % (k, self.n)
         if k in ("F", "B"):
             return "%s%d(%s)" % (k, self.n, self.kids[0].term())
@@ -56,6 +115,8 @@ class Node:
         own = 30
         if k == "W":
             return own + 8 * self.n
+        if k == "N":
+            return own + 2 * (self.n + 1) * (self.n + 1)
         if k == "B":
             return own + self.n * (20 + self.kids[0].cost_bound())
         return own + sum(c.cost_bound() for c in self.kids)
@@ -116,6 +177,9 @@ def lpc_of(root):
             ]
             f = forms[node.form % len(forms)]
             body.append("mixed %s () { %s }" % (name, f.replace("%d", str(node.n))))
+        elif k == "N":
+            # sort_array of k + 1 elements makes at least k comparison callbacks (map/filter stop at the first failure)
+            body.append('mixed %s () { sort_array (allocate (%d), "nosuch_function", this_object ()); return 0; }' % (name, node.n + 1))
         elif k == "S":
             forms = ["while (1) ;", "for (;;) ;", "do { } while (1);", "int i = 0; while (i >= 0) { i = i & 1023; i++; }"]
             body.append("mixed %s () { %s return 0; }" % (name, forms[node.form % len(forms)]))
@@ -166,15 +230,21 @@ def lpc_of(root):
     return "\n".join(out) + "\n"
 
 
-def machine_case(cid, root, cost, depth, stack, hc=0, meta=None, idx=None):
+def machine_case(cid, root, cost, depth, stack, hc=0, meta=None, idx=None, via="cfgint"):
     idx = idx or {}
     name = "/c04/g_%s" % "".join(ch if ch.isalnum() else "_" for ch in cid)
     src = lpc_of(root)
-    lines = ["lpc %s.c %s" % (name, src.encode().hex()),
-             "cfgint %d %d" % (idx.get("cfgEvalCost", 8), cost), "depth %d" % depth, "stack %d" % stack]
+    if via == "reconf":      # through init_config () of lib/rc/rc.cpp (resets the other limits: must come first)
+        first = ["reconf MaxEvaluationCost %d" % cost]
+    elif via == "setlimit":  # through the efun set_eval_limit ()
+        first = ["load sizes /c04/sizes", "ev sizes set_limit %d" % cost]
+    else:
+        first = ["cfgint %d %d" % (idx.get("cfgEvalCost", 8), cost)]
+    # (objects are loaded before the budget is lowered: create () runs under the budget, too)
+    lines = ["lpc %s.c %s" % (name, src.encode().hex()), "load p %s" % name] + first + ["depth %d" % depth, "stack %d" % stack]
     if hc:
         lines.append("mset set_handler_catches 1")
-    lines += ["load p %s" % name, "shape %s" % root.term(), "ev p main"]
+    lines += ["shape %s" % root.term(), "ev p main"]
     m = {"origin": "generated", "kind": "machine"}
     m.update(meta or {})
     return E.Case(cid, lines, m)
@@ -185,11 +255,12 @@ class C04(Prop):
     title = "Every evaluation is bounded by the configured limits"
     lean_modules = ["NV.C04.Props", "NV.C04.Witness"]
     theorems = ["NV.C04.limit_error_not_swallowed", "NV.C04.limit_error_reaches_next_frame",
-                "NV.C04.catch_reraises_limit_error", "NV.C04.eval_bounded", "NV.C04.eval_completes_below_budget",
-                "NV.C04.depth_bounded", "NV.C04.sizes_bounded", "NV.C04.replace_scan_in_bounds",
-                "NV.C04.sprintf_bounded", "NV.C04.array_size_exact"]
-    witness_theorems = ["NV.C04.eval_unbounded_at_zero_budget", "NV.C04.eval_unbounded_through_safe_apply",
-                        "NV.C04.not_EvalBounded_Full", "NV.C04.sprintf_exceeds_small_limit", "NV.C04.array_size_wraps",
+                "NV.C04.catch_reraises_limit_error", "NV.C04.eval_bounded", "NV.C04.eval_bounded_exact",
+                "NV.C04.eval_bounded_of_pos", "NV.C04.depth_bounded", "NV.C04.stack_checked_pushes_bounded",
+                "NV.C04.sizes_bounded", "NV.C04.replace_scan_in_bounds", "NV.C04.sprintf_bounded",
+                "NV.C04.array_size_exact"]
+    witness_theorems = ["NV.C04.eval_unbounded_at_zero_budget", "NV.C04.eval_bound_attained_through_safe_apply",
+                        "NV.C04.sprintf_exceeds_small_limit", "NV.C04.array_size_wraps",
                         "NV.C04.buffer_size_wraps", "NV.C04.repeat_string_old_wraps"]
     consts = CONSTS
     const_headers = ["src/interpret.h", "lib/rc/rc.h", "lib/lpc/include/runtime_config.h", "lpc/array.h", "lpc/buffer.h",
@@ -216,10 +287,12 @@ class C04(Prop):
             "catch, and (b) 3..8 constructor calls with arguments around the limit, 0, negative, 2^31, 2^32+k, 2^62, INT64 "
             "extremes under MaxArraySize/MaxBufferSize/MaxMappingSize/MaxStringLength 10..1000 (1 in 8 with limits around 65536); "
             "a case is non-trivial when its trace has >= 2 lines; distinct = distinct canonical implementation trace")
-    not_covered = ["instructions the master's error handler executes after a limit error (it runs on a refreshed budget; bounded by an allowance in the oracle, not modelled)",
+    not_covered = ["mapping * mapping (compose_mapping: keeps a subset of the left operand's keys) and the efuns marked NOT ANALYSED on the exclusion list of props/c04.py (save_variable, restore_variable, regexp, reg_assoc)",
+                   "work done inside one efun call that makes no callback (e.g. hashing, copying) is bounded by the size limits, not by the evaluation cost",
+                   "instructions the master's error handler executes after a limit error (it runs on a refreshed budget; bounded by an allowance in the oracle, not modelled)",
                    "wall-clock time and memory of a single efun call",
                    "unchecked value-stack pushes (argument pushes, merge_arg_lists): confirmed defect that belongs to C01",
-                   "constructors not listed in NV/C04/Sizes.lean (regexp, parse_command, read_file, users(), ...)",
+                   "efuns excluded from the size decisions: see EFUN_EXCLUDED in props/c04.py (each with its reason; the check fails when an efun returning a sized value is in neither table)",
                    "set_eval_limit(): a privileged efun that resets the budget by design"]
     trusted = ["props/c04.py: shape term -> LPC source translator", "literal slack of 5 in reset_interpreter (src/stack.c) copied into the model"]
 
@@ -228,6 +301,18 @@ class C04(Prop):
         self.conf = E.make_mudlib(ctx.rundir, master="/c04/master.c", extra_conf=BASE_CONF)
         self.idx = dict(getattr(ctx, "gen_vals", {}) or {})
         self.raw = {}
+
+    def extra_checks(self, ctx, tier, rng):
+        inv = efun_inventory(E.REPO)
+        self.inventory = inv
+        problems = []
+        if len(inv) < 60:
+            problems.append({"kind": "tie-broken", "name": "efun-inventory", "detail": "func_spec.c could not be parsed (%d efuns found)" % len(inv)})
+        unknown = sorted(set(n for n, _ in inv if n not in EFUN_COVERED and n not in EFUN_EXCLUDED))
+        if unknown:
+            problems.append({"kind": "tie-broken", "name": "efun-inventory:" + ",".join(unknown),
+                             "detail": "efuns returning a sized value that are neither decided in NV/C04/Sizes.lean nor on the exclusion list of props/c04.py: %s" % unknown})
+        return problems
 
     def run_impl(self, ctx, cases):
         res = E.run_harness(self.exe, self.conf, cases, ctx.rundir, args=["--timeout", os.environ.get("NV_C04_TIMEOUT", "6")])
@@ -296,6 +381,21 @@ class C04(Prop):
         B.append(self.mk("b-cb-c-spin", Bk(3, C(C(S)))))
         B.append(self.mk("b-c-cb-spin", C(Bk(2, S, 1))))
         B.append(self.mk("b-c-call-c-spin", C(F(2, C(F(1, S))))))
+        # repaired: a budget below 1 (config file / set_eval_limit) is clamped to 1
+        for v in (0, -7, 1, 2):
+            B.append(machine_case("b-reconf%d" % v, Q(W(30), C(S)), v, 20, 300, 0, {"origin": "boundary"}, self.idx_or_default(), "reconf"))
+        for v in (-5, 4294967296, -4294967296, 2, 4294967296 + 3000):
+            B.append(machine_case("b-setlimit%d" % v, Q(W(30), C(S)), v, 20, 300, 0, {"origin": "boundary"}, self.idx_or_default(), "setlimit"))
+        # repaired: an eval-cost error stopped by a safe apply leaves the caller one tick
+        B.append(self.mk("b-safe-spin-x3", Q(A(S), Q(A(S), A(S))), cost=2000))
+        B.append(self.mk("b-safe-spin-loop", Bk(4, A(S)), cost=2000))
+        B.append(self.mk("b-safe-catch-spin", Q(A(C(S)), W(10)), cost=2000))
+        B.append(self.mk("b-hc-safe-spin", Q(A(S), W(10)), cost=2000, hc=1))
+        B.append(self.mk("b-safe-rec-then-work", Q(A(R(0)), W(30)), cost=2000))
+        # repaired: callbacks that run no code are charged (call_efun_callback)
+        B.append(self.mk("b-nocode-over", N("N", 400), cost=200, depth=20, stack=300))
+        B.append(self.mk("b-nocode-under", Q(N("N", 10), W(5)), cost=2000))
+        B.append(self.mk("b-nocode-catch", C(C(N("N", 95, form=1))), cost=80))
         # ordinary errors are still catchable
         B.append(self.mk("b-c-err", Q(C(E_), W(20))))
         B.append(self.mk("b-c-throw", Q(C(T), C(C(E_)))))
@@ -328,26 +428,34 @@ class C04(Prop):
                                   "repeat 0 4611686018427387904", "repeat 3 -1", "repeat 1000 1", "repeat 4 4611686018427387904",
                                   "implode 10 100 0", "implode 100 100 0", "implode 10 90 10", "implode 10 91 10", "implode 0 5 5",
                                   "replace 99 100 9", "replace 100 100 9", "replace 800 100 9", "replace 100 100 8", "replace 801 99 3"]))
+        B.append(self.sizes_case("b-sz-derived", {"array": 50, "mapping": 80, "string": 200},
+                                 ["copy_array 50", "copy_mapping 80", "sort_array 50", "map_array 50", "lower_case 200", "filter_array 50 20",
+                                  "filter_array 50 0", "unique_array 50 7", "unique_array 50 0", "array_sub 50 20", "array_and 50 20",
+                                  "keys 50", "keys 51", "values 80", "allocate_mapping 1000000", "allocate_mapping -1"]))
         B.append(self.sizes_case("b-sz-wide", {"array": 70000, "buffer": 200000, "string": 100000},
-                                 ["allocate 65535", "allocate_buffer 65535", "join 60000 30000", "sprintf 30000 30000"]))
+                                 ["allocate 65535", "allocate_buffer 65535", "join 60000 30000", "sprintf 30000 30000", "sprintf 60000 40000"]))
+        B.append(self.sizes_case("b-sz-sprintf", {"string": 200}, ["sprintf 100 100", "sprintf 100 101", "sprintf 200 100", "sprintf 1 1"]))
         return B
 
     def gen_shape(self, rng, depth, st):
         """random shape; st tracks the budget of terminating work and whether an unbounded leaf was placed"""
         N = Node
         if depth <= 0 or rng.chance(1, 4):
-            k = rng.weighted([("W", 6), ("S", 3 if not st["inf"] else 0), ("R", 3 if not st["inf"] else 0),
+            k = rng.weighted([("W", 6), ("N", 2), ("S", 3 if not st["inf"] else 0), ("R", 3 if not st["inf"] else 0),
                               ("X", 1 if not st["inf"] else 0), ("E", 3), ("T", 2), ("K", 1)])
             if k in ("S", "R", "X"):
                 st["inf"] = True
             if k == "W":
                 return N("W", rng.choice([0, 1, 3, 10, 25, 60]), form=rng.below(4))
+            if k == "N":
+                return N("N", rng.choice([0, 1, 4, 10]))
             if k == "R":
                 return N("R", rng.choice([0, 0, 1, 4, 12, 20]), form=rng.below(4))
             if k == "S":
                 return N("S", form=rng.below(4))
             return N(k)
-        k = rng.weighted([("C", 8), ("F", 4), ("Q", 6), ("B", 3), ("A", 1)])
+        # (sprintf inside master::object_name is refused by the driver: no safe apply inside a safe apply)
+        k = rng.weighted([("C", 8), ("F", 4), ("Q", 6), ("B", 3), ("A", 0 if st.get("in_safe") else 1)])
         if k == "C":
             return N("C", kids=[self.gen_shape(rng, depth - 1, st)])
         if k == "F":
@@ -358,7 +466,10 @@ class C04(Prop):
             return N("Q", kids=[a, b])
         if k == "B":
             return N("B", rng.choice([0, 1, 2, 4]), [self.gen_shape(rng, depth - 1, st)], rng.below(2))
-        return N("A", kids=[self.gen_shape(rng, depth - 1, st)])
+        st["in_safe"] = True
+        kid = self.gen_shape(rng, depth - 1, st)
+        st["in_safe"] = False
+        return N("A", kids=[kid])
 
     def gen_machine(self, rng, cid):
         for _ in range(50):
@@ -372,7 +483,11 @@ class C04(Prop):
             if root.has(("A",)) and st["inf"] is False and rng.chance(1, 2):
                 continue
             hc = 1 if rng.chance(1, 5) else 0
-            return machine_case(cid, root, cost, depth, stack, hc, {"origin": "generated"}, self.idx_or_default())
+            via = rng.weighted([("cfgint", 6), ("reconf", 2), ("setlimit", 1)])
+            if rng.chance(1, 12):       # a budget that the driver clamps to 1
+                cost = rng.choice([0, -1, -3000]) if via != "setlimit" else rng.choice([-2, -3000, 4294967296])
+                via = "reconf" if via == "cfgint" else via
+            return machine_case(cid, root, cost, depth, stack, hc, {"origin": "generated"}, self.idx_or_default(), via)
         return self.mk(cid, Node("C", kids=[Node("C", kids=[Node("S")])]), origin="generated")
 
     def gen_sizes(self, rng, cid):
@@ -398,8 +513,29 @@ class C04(Prop):
                               ("explode0", 1), ("aggregate", 1), ("allocate_buffer", 3), ("add_buffer", 3),
                               ("map_insert", 3), ("map_add", 3), ("map_aggregate", 1), ("join", 4), ("join_eq", 2),
                               ("join_self", 2), ("join_num", 1), ("num_join", 1), ("repeat", 5), ("implode", 3),
-                              ("replace", 3), ("sprintf", 1)])
-            if k == "allocate":
+                              ("replace", 3), ("sprintf", 1), ("derived", 6)])
+            if k == "derived":
+                d = rng.choice(["copy_array", "copy_mapping", "sort_array", "map_array", "lower_case", "filter_array",
+                                "unique_array", "array_sub", "array_and", "keys", "values", "allocate_mapping"])
+                if d in ("copy_array", "sort_array", "map_array"):
+                    cmds.append("%s %d" % (d, near(la, False)))
+                elif d in ("copy_mapping", "keys", "values"):
+                    cmds.append("%s %d" % (d, rng.choice([0, 1, lm // 2, lm, lm + 1, min(lm, la), min(lm, la + 1)])))
+                elif d == "lower_case":
+                    cmds.append("lower_case %d" % near(ls, False))
+                elif d in ("filter_array", "unique_array"):
+                    n_ = min(near(la, False), la)
+                    if d == "unique_array":
+                        n_ = min(n_, 2000)     # unique_array searches its group list linearly: quadratic inside one efun
+
+                    cmds.append("%s %d %d" % (d, n_, rng.choice([0, 1, n_ // 2, n_, n_ + 3])))
+                elif d in ("array_sub", "array_and"):
+                    cmds.append("%s %d %d" % (d, min(near(la, False), la), min(near(la, False), la)))
+                else:
+                    cmds.append("allocate_mapping %d" % rng.choice([0, 5, lm, lm + 1, 10 ** 6, -1, 2 ** 40]))
+                if rng.chance(1, 3):
+                    cmds.append("sprintf_pad %d %d" % (rng.choice([0, 1, ls - 1, ls, ls + 1, 65535, 65536, 70000]), rng.choice([1, ls // 2, ls])))
+            elif k == "allocate":
                 cmds.append("allocate %d" % near(la))
             elif k == "add_array":
                 a = near(la, False)
